@@ -1,17 +1,39 @@
 """C06 — headers and data do not depend on how entry bodies are consumed."""
 from props._read import Cons
+from props._rdd import Rdd
 
 PROP = 'C06'
 PROPS_MODULES = ['LA.Props.C06']
-GEN = []
-ASSUMPTIONS = ['"well-formed" = the all-read reference run of the implementation under test is clean (every header OK, '
-               'every body ends with EOF, archive ends with EOF)']
-TRUSTED = []
+GEN = ['Status']
+ASSUMPTIONS = [
+    '"well-formed" = the all-read reference run of the implementation under test is clean (every header OK, '
+    'every body ends with EOF, archive ends with EOF) [engine cons]',
+    'theorems are about archive_read.c (archive_read_data, archive_read_data_block, archive_read_data_skip, '
+    '__archive_reset_read_data, _archive_read_next_header2) over ANY format reader, represented by the script of its '
+    'read_header/read_data/read_data_skip results; that a real format reader delivers well-formed blocks '
+    '(increasing, non-overlapping offsets within the entry size, end offset reported with EOF not before the end of the '
+    'data) and that its skip hook lands where reading lands is a hypothesis (WellFormed / CleanEntry), tested on the '
+    'real readers by engine cons only',
+    'offsets are mathematical integers in the model and int64_t in the C: exact while '
+    'read_data_output_offset + s < 2^63 at entry of archive_read_data (the sum is invariant inside a call and bounds '
+    'every intermediate value)',
+    'archive_seek_data is not modelled',
+]
+TRUSTED = ['harness/eng_rdd.c: the scripted format registered through __archive_read_register_format answers '
+           'read_header/read_data/read_data_skip exactly from the script']
 MANIFEST = {
-    'text': 'partial: Lean model of archive_read_data over zero-copy blocks (dense image, zero-filled holes, bounded by '
-            'the request) with theorems for every block sequence and every buffer-size sequence, plus the prediction '
-            'function for consumption vectors. Tied to the C by the cons engine: the real reader over the reference '
-            'corpus under per-entry choices {read_data any buffers, read_data_block, prefix, skip, nothing}.',
-    'note': 'Format-specific skip logic of unmodelled parsers is covered only by the differential.',
+    'text': 'partial: Lean model (LA.RD) of archive_read_data / archive_read_data_block / archive_read_data_skip / '
+            '__archive_reset_read_data / _archive_read_next_header2 over a scripted format reader, with theorems for '
+            'EVERY block script, buffer-size sequence and consumption history: never more than s bytes; the results are '
+            'the dense image (leading, interior, trailing holes zero-filled) cut at the buffer sizes, the same bytes for '
+            'any two buffer-size sequences and never more than the entry size; ARCHIVE_RETRY exactly on out-of-order '
+            'blocks; progress; the next header (status and complete handle state) is the same after any consumption of '
+            'the earlier bodies. Tied to the C by engine rdd (real archive_read.c driven over a fake format through the '
+            'private registration API, state members compared after every call) and by engine cons (the real readers '
+            'over the reference corpus under per-entry consumption vectors).',
+    'technique': 'Lean 4 simulation proof (well-founded model of the C loop, invariant + abstraction to the pending '
+                 'dense image) + model/C differential correspondence',
+    'note': 'Format-specific block production and skip logic of the unmodelled parsers is covered only by the cons '
+            'differential. Five defects found and repaired in /repo (known_findings.json, fixed: property=C06).',
 }
-ENGINES = [Cons()]
+ENGINES = [Rdd(), Cons()]
